@@ -26,6 +26,7 @@ inductive Op
   | progressMod               -- individual_nodes.go collectResults: done % o.notifierStep()
   | sexesInit | sexesLast     -- multiple_sexes_warning.go: sexes[:len(sexes)-1], sexes[len(sexes)-1]
   | namePart                  -- name_node.go: node.parts()[k]
+  | surnameSlice              -- name_node.go: lastName[1 : lastNameLength-1]
   | placePart                 -- place_node.go: placeParts[k]
   | monthAbbrev               -- date.go: date.Month.String()[:3]
 deriving DecidableEq, Repr, Inhabited
@@ -33,6 +34,7 @@ deriving DecidableEq, Repr, Inhabited
 def Op.name : Op → String
   | .maxFirst => "maxFirst" | .maxNext => "maxNext" | .progressMod => "progressMod"
   | .sexesInit => "sexesInit" | .sexesLast => "sexesLast" | .namePart => "namePart"
+  | .surnameSlice => "surnameSlice"
   | .placePart => "placePart" | .monthAbbrev => "monthAbbrev"
 
 /-- result of a Go call: a value or a run-time panic at a site -/
@@ -65,6 +67,10 @@ def idx {α} (op : Op) (xs : List α) (i : Int) : R α :=
 /-- `xs[:hi]` -/
 def sliceTo {α} (op : Op) (xs : List α) (hi : Int) : R (List α) :=
   if 0 ≤ hi ∧ hi ≤ (xs.length : Int) then .ok (xs.take hi.toNat) else .panic op
+
+/-- `xs[lo:hi]` -/
+def sliceMid {α} (op : Op) (xs : List α) (lo hi : Int) : R (List α) :=
+  if 0 ≤ lo ∧ lo ≤ hi ∧ hi ≤ (xs.length : Int) then .ok ((xs.drop lo.toNat).take (hi.toNat - lo.toNat)) else .panic op
 
 /-- `a % b` on Go integers (truncated; panics on a zero divisor) -/
 def modOp (op : Op) (a b : Int) : R Int :=
@@ -141,6 +147,12 @@ def surnameFallback (v : Str) : R Str :=
   (surnameGroupPart v).map fun g =>
     let last := Resolve.cleanSpace g
     if last.isEmpty then [] else (last.drop 1).take (last.length - 2)
+/-- `NameNode.Surname()` without a SURN child, with the slice as the code has it:
+    `lastName[1 : lastNameLength-1]` after the `lastName == ""` exit -/
+def surnameSliced (v : Str) : R Str :=
+  (surnameGroupPart v).bind fun g =>
+    let last := Resolve.cleanSpace g
+    if last.isEmpty then .ok [] else sliceMid .surnameSlice last 1 ((last.length : Int) - 1)
 /-- `NameNode.Suffix()` without an NSFX child -/
 def suffixFallback (v : Str) : R Str := (idx .namePart (nameParts v) 3).map Resolve.cleanSpace
 
